@@ -336,6 +336,9 @@ func execCoins(op string) (string, []common.Failure) {
 		b = parseCoins(f[2])
 		b0 = fmtCoins(b)
 	}
+	// validity of the operands is judged before the call (IsEqual sorts an unsorted operand in place)
+	sa, okA := toSet(a)
+	sb, okB := toSet(b)
 	bs := func(x bool) string { return fmt.Sprint(x) }
 	var result sdk.Coins
 	hasResult := false
@@ -380,8 +383,6 @@ func execCoins(op string) (string, []common.Failure) {
 		return "bad-op"
 	})
 	var fails []common.Failure
-	sa, okA := toSet(a)
-	sb, okB := toSet(b)
 	if okA && okB && b0 != "" {
 		if want := coinsSpec(k, sa, sb); want != "" && want != obs {
 			sig := "C18:" + k + ":result"
